@@ -136,9 +136,10 @@ def check_checker(run, db):
             problems = []
             for s in S:
                 hc = [c for c in s.calls if c[1].get('k') == 'call' and c[1].get('short') == 'operator()']
-                nz = ('(0 != this.allocated_)', True) in s.conds or ('(this.allocated_ != 0)', True) in s.conds or ('this.allocated_', True) in s.conds
-                z = ('(0 != this.allocated_)', False) in s.conds or ('(this.allocated_ != 0)', False) in s.conds or ('this.allocated_', False) in s.conds \
-                    or ('(0 == this.allocated_)', True) in s.conds
+                NE = ('(0 != this.allocated_)', '(this.allocated_ != 0)', 'this.allocated_')
+                EQ = ('(0 == this.allocated_)', '(this.allocated_ == 0)')
+                nz = any((c, True) in s.conds for c in NE) or any((c, False) in s.conds for c in EQ)
+                z = any((c, False) in s.conds for c in NE) or any((c, True) in s.conds for c in EQ)
                 if nz and not (len(hc) == 1 and hc[0][0].endswith('(this.allocated_)')):
                     problems.append('non-zero count: handler called %d time(s) (%s)' % (len(hc), [c[0] for c in hc]))
                 elif z and hc:
@@ -182,7 +183,7 @@ def check_checker(run, db):
             dec = [c for c in s.calls if c[1].get('short') == 'operator--']
             last = any('no_counter_objects_' in c and '== 0' in c.replace('(0 ==', '== 0') and tk for c, tk in s.conds) or \
                 any('no_counter_objects_' in c and c.startswith('(0 ==') and tk for c, tk in s.conds)
-            nonzero = any('allocated_' in c and '!=' in c and tk for c, tk in s.conds)
+            nonzero = any('allocated_' in c and (('!=' in c and tk) or ('==' in c and not tk)) for c, tk in s.conds)
             if len(dec) != 1:
                 problems.append('counter objects not decremented exactly once')
             if last and nonzero and len(hc) != 1:
